@@ -347,3 +347,24 @@ Proof.
   rewrite Hrep. unfold after_effects. rewrite fold_left_app.
   match goal with |- fst (fold_left _ _ ?x) = _ => destruct x as [l d] end. reflexivity.
 Qed.
+
+(* ---- the checkpoint must write its savepoint BEFORE it applies the log (closing checkpoint of iwkv_close,
+   forced checkpoint, checkpoint thread): C04_recover_is_prefix_partial covers a kill between "log applied" and
+   "log truncated" only because the records applied are exactly the records before the last savepoint.  Without
+   the savepoint (no_fixpoint = true) the records logged after the last iwkv_sync are applied but not redone:
+   op 1 writes byte 0 := 1 and is synced; op 2 rewrites byte 0 := 2; op 3 writes byte 1 := 3; then the checkpoint.
+   Kill before the log truncation, recover:  with savepoint -> (2,3) = state after 3 operations;
+   without -> (1,3): byte 0 from op 1, byte 1 from op 3 - no prefix state. *)
+Definition cs_cfg : pcfg := mkC 4084 false.
+Definition cs_s0 : pstate := mkP [] [] (repeat 0 4096%nat) 0 0 false.
+Definition cs_events : list event := [VWrite 0 [1]; VSavepoint 5 true; VWrite 0 [2]; VWrite 1 [3]].
+Definition cs_crash (no_fixpoint : bool) : verdict * Z * Z :=
+  let (s1, fx1) := run cs_cfg cs_s0 cs_events in
+  let (s2, fx2) := checkpoint cs_cfg s1 no_fixpoint 9 in
+  (* every effect of the checkpoint except the log truncation and its fsync *)
+  let (log, disk) := after_effects (p_log cs_s0) (p_disk cs_s0) (fx1 ++ firstn (length fx2 - 2) fx2) in
+  let '(v, m, _) := recover false 1 0 log disk in (v, nth 0 m 0, nth 1 m 0).
+
+Theorem apply_before_savepoint_refuted :
+  cs_crash false = (VOk, 2, 3) /\ cs_crash true = (VOk, 1, 3).
+Proof. vm_compute. split; reflexivity. Qed.
